@@ -94,9 +94,19 @@ class Kernel:
                 ps.append("%s* %s" % (cpp(a.ctype), a.name))
         return ", ".join(ps)
 
+    def wide_ret(self):
+        return bool(self.ret) and CT[self.ret][3] == "int" and bits(self.ret) > 64
+
     def fn_cpp(self, fname, body):
         pre = "".join("    auto const %s = *%s_p;\n" % (a.name, a.name) for a in self.args if a.kind == "ref")
         rt = cpp(self.ret) if self.ret else "void"
+        if self.wide_ret():
+            # 128-bit results are written through a pointer (extern "C" would split them into two i64)
+            names = ", ".join((a.name + "_p") if a.kind == "ref" else a.name for a in self.args)
+            return ('static inline __attribute__((always_inline)) %s %s_impl(%s) {\n%s%s\n}\n'
+                    'extern "C" __attribute__((noinline)) void %s(%s%s%s* ret_out) {\n    *ret_out = %s_impl(%s);\n}\n' % (
+                        rt, fname, self.params_cpp(), pre, body,
+                        fname, self.params_cpp(), ", " if self.args else "", rt, fname, names))
         return 'extern "C" __attribute__((noinline)) %s %s(%s) {\n%s%s\n}\n' % (
             rt, fname, self.params_cpp(), pre, body)
 
@@ -126,7 +136,10 @@ class Kernel:
                     L.append("    %s %s[%d] = {}; rd(av[%d], %s, sizeof %s);\n" % (
                         cpp(a.ctype), a.name, a.n, i, a.name, a.name))
                     call.append(a.name)
-            if self.ret:
+            if self.wide_ret():
+                L.append("    %s r{}; %s(%s);\n    std::printf(\"RET \"); wr(&r, sizeof r);\n" % (
+                    cpp(self.ret), fname, ", ".join(call + ["&r"])))
+            elif self.ret:
                 L.append("    auto r = %s(%s);\n    std::printf(\"RET \"); wr(&r, sizeof r);\n" % (fname, ", ".join(call)))
             else:
                 L.append("    %s(%s);\n    std::printf(\"RET -\");\n" % (fname, ", ".join(call)))
